@@ -41,6 +41,7 @@ def required(tier):
         "grammar.lex_corpus": 4,
         "long_inputs.ge12": 100,
         "tables_walked": 200,
+        "grammar.with_layout_rule": 20,
     }
 
 
@@ -82,7 +83,15 @@ def lex_grammar(ctx, mon, name, g):
 
 
 def one_grammar(ctx, mon, name, g, alphabet, maxlen):
-    text = g.text(inline=ctx.rng.random() < 0.3)
+    if not glrwork.has_overlap(g) and "WS" not in g.terms and "LAYOUT" not in g.nts and ctx.rng.random() < 0.15:
+        # layout skipped by a LAYOUT rule that matches exactly runs of the ws characters: same
+        # language; the one parser object then runs its layout sub-parser on input after input
+        from pgverif.props.c08 import WS_LAYOUT, WS_TERMS
+
+        text = g.text(extra_rules=WS_LAYOUT.strip(), extra_terms=WS_TERMS)
+        ctx.count("grammar.with_layout_rule")
+    else:
+        text = g.text(inline=ctx.rng.random() < 0.3)
     cyc = g.cyclic()
     ctx.count("grammar.cyclic" if cyc else "grammar.acyclic")
     for t in g.tags():
